@@ -15,8 +15,10 @@ ENGINES = 'i,g0,g2'
 BUILDS = [
     ('default', []),
     ('noinline', ['-DMIR_MAX_INSNS_FOR_INLINE=0', '-DMIR_MAX_INSNS_FOR_CALL_INLINE=0']),
-    ('always', ['-DMIR_MAX_INSNS_FOR_INLINE=1000000', '-DMIR_MAX_INSNS_FOR_CALL_INLINE=1000000',
-                '-DMIR_MAX_FUNC_INLINE_GROWTH=1000000', '-DMIR_MAX_CALLER_SIZE_FOR_ANY_GROWTH_INLINE=100000000']),
+    # "always": every callee is below the size thresholds; inlining stops only when the caller has
+    # grown beyond 4x its size and 4000 insns (unbounded growth is exponential in call chains)
+    ('always', ['-DMIR_MAX_INSNS_FOR_INLINE=100000', '-DMIR_MAX_INSNS_FOR_CALL_INLINE=100000',
+                '-DMIR_MAX_FUNC_INLINE_GROWTH=400', '-DMIR_MAX_CALLER_SIZE_FOR_ANY_GROWTH_INLINE=4000']),
 ]
 GEN_OPTS = dict(w_call=16, p_blk=0.4, p_forward=0.5, nfuncs=None)
 
